@@ -3,6 +3,8 @@ from ..mutate import Mutant, in_func, delete_stmt
 from . import evalrules as er
 from . import c07, c01, c19
 
+from .common import Guard  # noqa: E402
+
 PROP = 'C10'
 DECIDED = [
     'R1: memo discipline of EvalContext.evaluate_node: the evaluation is reachable only on a miss of the identity memo; on every normal path after it the result is stored under persistent_id of the same node; hit and miss return the memoised object.',
@@ -16,12 +18,14 @@ UNDECIDED = ['order independence and re-entrancy in general;', '"nodes deleted b
 
 
 def check(repo, run, tier):
-    er.memo_discipline(repo, run, 'C10.R1')
-    er.who_may_evaluate(repo, run, 'C10.R2')
-    er.per_build_caches(repo, run, 'C10.R3')
-    c01.plain_container_eval(repo, run, 'C10.R4')
-    _as(run, 'C07.R4', 'C10.R5', lambda: c07.r4(repo, run))
-    _as(run, 'C19.R5', 'C10.R6', lambda: c19.r5(repo, run))
+    g = Guard()
+    g(er.memo_discipline, repo, run, 'C10.R1')
+    g(er.who_may_evaluate, repo, run, 'C10.R2')
+    g(er.per_build_caches, repo, run, 'C10.R3')
+    g(c01.plain_container_eval, repo, run, 'C10.R4')
+    g(_as, run, 'C07.R4', 'C10.R5', lambda: c07.r4(repo, run))
+    g(_as, run, 'C19.R5', 'C10.R6', lambda: c19.r5(repo, run))
+    g.done()
 
 
 def _as(run, old, new, fn):
